@@ -274,6 +274,10 @@ impl Prop for C02 {
         match (&model, &b) {
             (Err(MErr::Unspec), _) => ctx.count("discarded_unspecified"),
             (Ok(m), _) if has_nan_or_inf(m) => ctx.count("discarded_inf_nan"),
+            // `^` results in the subnormal range: powf/powi may flush them; not a documented value
+            (Ok(m), _) if has_pow && m.as_f64().map(|a| a != 0.0 && a.abs() < 1.2e-38).unwrap_or(false) => {
+                ctx.count("discarded_pow_subnormal")
+            }
             (Ok(m), Ok(g)) => {
                 let tol = if has_pow { mv::Tol::Loose } else { mv::Tol::Exact };
                 if !mv::same(m, g, tol) {
@@ -321,6 +325,11 @@ impl Prop for C02 {
                 return;
             }
             let (suffix, ty) = *rng.pick(&[("%", mv::Ty::I), ("!", mv::Ty::S), ("#", mv::Ty::D), ("$", mv::Ty::Str)]);
+            if has_pow && (ty == mv::Ty::I || m.as_f64().map(|a| a != 0.0 && a.abs() < 1.2e-38).unwrap_or(false)) {
+                // flooring a `^` result to an Integer amplifies its last-bit difference (99.99999 vs 100)
+                ctx.count("store_not_judged_pow_to_integer_or_subnormal");
+                return;
+            }
             let want = mv::assign(ty, m);
             let stmt = format!("V{}={}", suffix, full);
             let mut s = Session::new();
